@@ -30,6 +30,7 @@ ASSUMPTIONS = [
     "a header value is compared modulo leading blanks/tabs (RFC 822 unfolding drops them; inherent to the format); the licence is compared after removing the continuation indentation",
     "static [project].classifiers are rendered exactly as declared (documented: static classifiers disable enrichment); sorted/no-duplicates is demanded for dynamic classifiers",
     "only the first author/maintainer is rendered (documented behaviour of Package._get_author)",
+    "fastjsonschema.compile is memoised per schema text by the harness (pure function; poetry-core recompiles both schemas on every validate call)",
     "KELVIN SIGN U+212A is excluded from generated URL labels/licence ids (str.lower() maps it to ASCII k; the model lower-cases ASCII only)",
 ]
 
@@ -470,6 +471,32 @@ def cleanup() -> None:
         _SCRATCH = None
 
 
+_COMPILE_CACHED = False
+
+
+def memoise_schema_compile() -> None:
+    """poetry-core compiles both JSON schemas anew on every validate() (~45 ms each, 90 % of a build here).
+    `fastjsonschema.compile` is a pure function of the schema, so the harness memoises it per schema text
+    (in-process wrapper, nothing in /repo is touched; a changed schema file gives a new key)."""
+    global _COMPILE_CACHED
+    if _COMPILE_CACHED:
+        return
+    import poetry.core.json as pj
+    fjs = pj.fastjsonschema
+    orig = fjs.compile
+    cache: dict[str, Any] = {}
+
+    def compile_cached(definition: Any, *a: Any, **k: Any) -> Any:
+        if a or k:
+            return orig(definition, *a, **k)
+        key = json.dumps(definition, sort_keys=True)
+        if key not in cache:
+            cache[key] = orig(definition)
+        return cache[key]
+    fjs.compile = compile_cached
+    _COMPILE_CACHED = True
+
+
 def dump_metadata_obj(m: Any) -> list[str]:
     items = [f"name={m.name}", f"version={m.version}", f"summary={m.summary}"]
 
@@ -501,6 +528,7 @@ def real_build(doc: dict[str, Any], files: dict[str, str], full_sdist: bool = Fa
     from poetry.core.spdx.helpers import license_by_id
     from poetry.core.version.helpers import format_python_constraint
 
+    memoise_schema_compile()
     r = Real()
     root = Path(tempfile.mkdtemp(prefix="p_", dir=scratch()))
     try:
